@@ -139,8 +139,45 @@ class Group(Harness):
                 cl.append((f"group-wise result at row {i} is its group's first row", BV(res.cols["first"].cells[i]) == first))
         return cl
 
+class GroupTwice(Group):
+    """count, in-place edit of every key cell, count again: the second partition must only depend on the new keys"""
+    def __init__(self, kind, maxn):
+        Group.__init__(self, "count", [kind], maxn)
+        self.mode = "count_twice"
+        self.name = f"C04.count_twice.{kind}.n{maxn}"
+        self.bounds = dict(self.bounds, history="count, in-place assignment of new key cells, count again")
+    def build(self, ctx):
+        from .common import sym_cell, scalar_of
+        inp = Group.build(self, ctx)
+        inp["mode"] = "count_twice"
+        n = len(inp["data"].cols["rid"])
+        inp["new"] = [scalar_of(sym_cell(self.kinds[0], f"new{i}"), self.kinds[0]) for i in range(n)]
+        return inp
+    def regions(self, inp):
+        from .common import as_cell
+        regs = Group.regions(self, inp)
+        data = inp["data"]
+        cols = dict(data.cols)
+        cols["g0"] = Arr(data.cols["g0"].dtype, [as_cell(x, self.kinds[0]) for x in inp["new"]])
+        for k, v in Group.regions(self, dict(inp, data=Frame(cols))).items():
+            regs[k] = z3.Or(regs.get(k, T(False)), v)
+        return regs
+    def spec(self, inp, out):
+        from .common import as_cell
+        if isinstance(out, Raised): return Group.spec(self, inp, out)
+        data = inp["data"]
+        cols = dict(data.cols)
+        cols["g0"] = Arr(data.cols["g0"].dtype, [as_cell(x, self.kinds[0]) for x in inp["new"]])
+        inp2 = dict(inp); inp2["data"] = Frame(cols)
+        self.mode = "count"
+        try:
+            return Group.spec(self, inp2, out)
+        finally:
+            self.mode = "count_twice"
+
 def harnesses(tier):
     hs = []
+    hs.append(GroupTwice("T", 2 if tier == "quick" else 3))
     if tier == "quick":
         for k in ["f", "i", "T", "b"]:
             hs.append(Group("aggregate", [k], 3))
